@@ -13,12 +13,14 @@ class WorldC10(World):
     PROP = 'C10'
     RUNS = {'quick': 8000, 'thorough': 150000}
     WALL = {'quick': 50, 'thorough': 560}
-    STATE_CHANGING = ('mkref', 'mkrefs', 'append', 'extend', 'pop', 'remove', 'setitem', 'fit', 'mktarget', 'reload')
+    STATE_CHANGING = ('mkref', 'mkrefs', 'append', 'extend', 'pop', 'remove', 'setitem', 'fit', 'mktarget', 'reload', 'clone',
+                      'clear', 'dictcopy', 'badcall')
     STATE_RULE = 'per References object: (members, rank of its descriptor matrix, fitted for the current list?, targets sharing it)'
     PROBES = ('fit-full-rank-unique', 'fit-overdetermined', 'fit-rank-deficient', 'stale-offsets-evaluated',
               'two-targets-share-references', 'target-with-absent-descriptor', 'different-T_ref', 'given-offset',
               'custom-descriptor', 'reload-target', 'refit-after-append', 'refit-after-pop', 'setitem-then-fit',
-              'use_references-off', 'extend-with-one-shot-iterable')
+              'use_references-off', 'extend-with-one-shot-iterable', 'references-cloned', 'offsets-cleared',
+              'in-memory-dict-copy-edited', 'rejected-call-then-valid-calls')
     REAL = ('pmutt.empirical.references.Reference / References (all list methods, fit_HoRT_offset, getters)',
             'pmutt.statmech.StatMech.get_quantity references branch', 'pmutt.io.json')
     SIMULATED = ('1-3 clients editing shared References objects and evaluating targets that share them',)
@@ -30,7 +32,8 @@ class WorldC10(World):
         nd = rng.randint(1, 5)
         return {'n_clients': rng.randint(1, 3), 'descriptors': DESC[:nd],
                 'descriptor_attr': rng.choice(['elements', 'elements', 'elements', 'groups']),
-                'T_ref_jitter': rng.random() < 0.2, 'fractional': rng.random() < 0.3, 'max_refs': rng.randint(1, 8),
+                'T_ref_jitter': rng.random() < 0.2, 'fractional': rng.random() < 0.3,
+                'w_hist': rng.choice([0, 0, 1]), 'max_refs': rng.randint(1, 8),
                 'w_edit': rng.choice([1, 2, 3]), 'w_eval': rng.choice([2, 3]), 'w_fit': rng.choice([1, 2])}
 
     def n_steps(self, rng, swarm):
@@ -52,6 +55,7 @@ class WorldC10(World):
         self.rs = {}        # id -> real References
         self.members = {}   # id -> list of ref ids (mirror of the list)
         self.fitted = {}    # id -> tuple of ref ids the offsets were last fitted for (None: given offsets)
+        self.off_seen = {}  # id -> offsets as last seen (they may change only through the object's own operations)
         self.tg = {}        # id -> real target StatMech
         self.tgm = {}       # id -> {'rs': refs id, 'desc': dict, 'bare': twin without references}
 
@@ -93,9 +97,21 @@ class WorldC10(World):
                                                        'wn': [round(rng.uniform(100, 4000), 1)
                                                               for _ in range(rng.randint(0, 3))],
                                                        'trans': rng.random() < 0.3}}
-        kinds = ['edit'] * sw['w_edit'] + ['eval'] * sw['w_eval'] + ['fit'] * sw['w_fit'] + ['reload']
+        kinds = ['edit'] * sw['w_edit'] + ['eval'] * sw['w_eval'] + ['fit'] * sw['w_fit'] + ['reload'] + \
+            ['clone', 'clear', 'dictcopy', 'badcall'] * sw.get('w_hist', 0)
         kind = rng.choice(kinds)
         mem = self.members[rid]
+        if kind == 'clone' and len(self.rs) < 5:
+            return {'c': c, 'op': 'clone', 'args': {'rs': rid, 'id': max(self.rs) + 1}}
+        if kind == 'clear':
+            return {'c': c, 'op': 'clear', 'args': {'rs': rid}}
+        if kind == 'dictcopy':
+            return {'c': c, 'op': 'dictcopy', 'args': {'rs': rid, 'then': rng.choice(['clear', 'fit', 'poke'])}}
+        if kind == 'badcall' and self.tg:
+            return {'c': c, 'op': 'badcall', 'args': {'tg': rng.choice(sorted(self.tg)),
+                                                      'how': rng.choice(['no-T', 'no-such-quantity'])}}
+        if kind in ('clone', 'clear', 'dictcopy', 'badcall'):
+            kind = 'eval'
         if kind == 'edit':
             choices = ['append', 'extend', 'setitem']
             if len(mem) > 1:
@@ -190,6 +206,8 @@ class WorldC10(World):
         np, ctx = self.np, self.ctx
         t, m = self.tg[tid], self.tgm[tid]
         rs = t.references
+        if rs is None:
+            raise Violation('references-kept', 'target %d was built with a References object; it now carries none' % tid)
         off = rs.offset if isinstance(rs.offset, dict) else {}
         desc = m['desc']
         if any(k not in off for k in desc):
@@ -232,6 +250,12 @@ class WorldC10(World):
 
     # ------------------------------------------------------------------ apply
     def apply(self, op):
+        touched = op['args'].get('rs') if op['op'] in ('append', 'extend', 'pop', 'remove', 'setitem', 'fit', 'mkrefs') else None
+        if op['op'] == 'mkrefs':
+            touched = op['args'].get('id')
+        return self._apply(op, touched)
+
+    def _apply(self, op, touched):
         a = op['args']
         name = op['op']
         ctx = self.ctx
@@ -365,8 +389,70 @@ class WorldC10(World):
             if a['tg'] not in self.tg:
                 raise Skip()
             out = self._check_target(a['tg'], a['T'], a.get('T2'))
+        elif name == 'clone':
+            if a['rs'] not in self.rs or a['id'] in self.rs:
+                raise Skip()
+            src = self.rs[a['rs']]
+            # a second References over the same reference species, started from the first one's offsets
+            new = self.real(self.refs.References, references=list(src.references), offset=src.offset, descriptor=self.attr,
+                            T_ref=src.T_ref, _what='References(offset=other.offset, references=list(other.references))')
+            self.rs[a['id']] = new
+            self.members[a['id']] = list(self.members[a['rs']])
+            self.fitted[a['id']] = self.fitted.get(a['rs'])
+            touched = a['id']
+            ctx.probe('references-cloned')
+            out = 'cloned'
+        elif name == 'clear':
+            if a['rs'] not in self.rs or not isinstance(self.rs[a['rs']].offset, dict):
+                raise Skip()
+            self.real(self.rs[a['rs']].clear_offset, _what='clear_offset')
+            self.fitted[a['rs']] = None
+            touched = a['rs']
+            ctx.probe('offsets-cleared')
+            out = 'cleared'
+        elif name == 'dictcopy':
+            if a['rs'] not in self.rs or not isinstance(self.rs[a['rs']].offset, dict):
+                raise Skip()
+            src = self.rs[a['rs']]
+            before = dict(src.offset)
+            d = self.real(src.to_dict, _what='References.to_dict')
+            cp = self.real(self.refs.References.from_dict, d, _what='References.from_dict(other.to_dict())')
+            # whatever is done to the copy, the object it was taken from keeps its offsets
+            if a['then'] == 'clear':
+                cp.clear_offset()
+            elif a['then'] == 'fit' and cp.references and self.attr == 'elements':
+                cp.pop()
+                if cp.references:
+                    cp.fit_HoRT_offset()
+            elif isinstance(cp.offset, dict):
+                for k_ in list(cp.offset):
+                    cp.offset[k_] = cp.offset[k_] + 1.0
+            ctx.probe('in-memory-dict-copy-edited')
+            if src.offset != before:
+                raise Violation('offsets-owned', 'offsets of a References object changed from %r to %r when its '
+                                'from_dict(to_dict()) copy was edited (%s)' % (before, src.offset, a['then']))
+            out = 'copied'
+        elif name == 'badcall':
+            if a['tg'] not in self.tg:
+                raise Skip()
+            t = self.tg[a['tg']]
+            try:
+                if a['how'] == 'no-T':
+                    t.get_HoRT(use_references=False, T=None)
+                else:
+                    t.get_quantity('get_no_such_quantity', T=400.0, use_references=False)
+            except Exception:
+                ctx.probe('rejected-call-then-valid-calls')
+            out = 'bad call'
         else:
             raise Skip()
+        # offsets belong to their References object: nothing done to another object may change them
+        for rid_, rs_ in sorted(self.rs.items()):
+            cur = dict(rs_.offset) if isinstance(rs_.offset, dict) else rs_.offset
+            if rid_ in self.off_seen and rid_ != touched and self.off_seen[rid_] != cur:
+                raise Violation('offsets-owned', 'References %d went from offsets %r to %r during %s on another object' % (
+                    rid_, self.off_seen[rid_], cur, name))
+            self.off_seen[rid_] = cur
         for tid in sorted(self.tg):
             self._check_target(tid, 500.0)
         return out
